@@ -97,6 +97,29 @@ TEMPLATES = {
     "IFTHENGOSUB": 'IF A = 1 THEN GOSUB {S}',
     "IFTHENGOTO": 'IF A = 1 THEN GOTO {G}',
     "IFTHENGOSUB2": 'IF A = 1 THEN GOSUB {S} : PRINT "{t}"',
+    # loop step taken from the input (sign given by the guard): signed and parenthesised step expressions
+    "FORSYMNEGSTEP": 'IF B < 1 OR B > 3 OR A < 1 OR A > 2 THEN END\nFOR I = B TO 1 STEP - A : PRINT "{t}" : NEXT I',
+    "FORSYMPOSSTEP": 'IF B < 1 OR B > 3 OR A < 1 OR A > 2 THEN END\nFOR I = 1 TO B STEP A : PRINT "{t}" : NEXT I',
+    "FORSYMPARSTEP": 'IF B < 1 OR B > 3 OR A < 1 OR A > 2 THEN END\nFOR I = B TO 1 STEP - ( A + 0 ) : PRINT "{t}" : NEXT',
+    "FORSYMPLUSSTEP": 'IF B < 1 OR B > 3 OR A < 1 OR A > 2 THEN END\nFOR I = 1 TO B STEP + A : PRINT "{t}" : NEXT I',
+    # every relation in the condition, with statements, with an empty THEN part, with an empty ELSE part: the boundary
+    # (operands equal) is one of the paths
+    "IFLT": 'IF A < 1 THEN PRINT "{t}" ELSE PRINT "{t}"',
+    "IFGT": 'IF A > 1 THEN PRINT "{t}" ELSE PRINT "{t}"',
+    "IFLE": 'IF A <= 1 THEN PRINT "{t}" ELSE PRINT "{t}"',
+    "IFGE": 'IF A >= 1 THEN PRINT "{t}" ELSE PRINT "{t}"',
+    "IFNE": 'IF A <> 1 THEN PRINT "{t}" ELSE PRINT "{t}"',
+    "IFEMPTYLT": 'IF A < 1 THEN ELSE PRINT "{t}"',
+    "IFEMPTYGT": 'IF A > 1 THEN ELSE PRINT "{t}"',
+    "IFEMPTYLE": 'IF A <= 1 THEN ELSE PRINT "{t}"',
+    "IFEMPTYGE": 'IF A >= 1 THEN ELSE PRINT "{t}"',
+    "IFEMPTYEQ": 'IF A = 1 THEN ELSE PRINT "{t}"',
+    "IFEMPTYNE": 'IF A <> 1 THEN ELSE PRINT "{t}"',
+    "IFEMPTYCOLON": 'IF A < 1 THEN : ELSE PRINT "{t}" : PRINT "{t}"',
+    "IFEMPTYAND": 'IF A < 1 AND B > 2 THEN ELSE PRINT "{t}"',
+    "IFEMPTYNUM": 'IF A THEN ELSE PRINT "{t}"',
+    "IFEMPTYL": "IF A <= 1 THEN ELSE {G}",
+    "IFEMPTYELSEPART": 'IF A >= 1 THEN PRINT "{t}" ELSE',
     "END": "END",
     "STOP": "STOP",
     "IFEND": "IF A = 1 THEN END",
@@ -105,6 +128,9 @@ TEMPLATES = {
 # FORIF opens a loop that NEXTI (a later line) closes: only generated as the adjacent pair
 PAIR_ONLY = {"FORIF": "NEXTI", "FORLINE": "NEXTBARE"}
 SOLO_EXCLUDED = {"NEXTI", "NEXTBARE"}
+# variations of one construct: on their own and next to a few simple neighbours, not in every pair
+VARIANTS = {"IFLT", "IFGT", "IFLE", "IFGE", "IFNE", "IFEMPTYLT", "IFEMPTYGT", "IFEMPTYLE", "IFEMPTYGE", "IFEMPTYEQ", "IFEMPTYNE", "IFEMPTYCOLON", "IFEMPTYAND",
+            "IFEMPTYNUM", "IFEMPTYL", "IFEMPTYELSEPART", "FORSYMNEGSTEP", "FORSYMPOSSTEP", "FORSYMPARSTEP", "FORSYMPLUSSTEP"}
 
 OPTION_SETS = [
     dict(filter_unused_linenum=False, initialize_vars=False),
@@ -162,9 +188,13 @@ def sequences(tier):
                 continue  # the many-path templates are paired with a few simple neighbours only in the quick tier
             if n == 2 and len([x for x in s if x in heavy]) == 2:
                 continue  # two many-path templates in a row: the product of their paths, nothing new
+            if n == 2 and (set(s) & VARIANTS) and not all(x in VARIANTS or x in ("P", "IFSG", "FORBARE") for x in s):
+                continue
+            if n == 2 and len([x for x in s if x in VARIANTS]) == 2 and tier == "quick":
+                continue
             seqs.append(s)
     if tier == "thorough":
-        core = [n for n in names if n not in ("ELIFNOELSE", "FOR2MIX", "PP", "IFELSE2", "ELIF2", "FORDOWN", "FORSTEP", "FORJ", "GOSUB2", "IFSS", "NEXTI", "FORIF", "FORLINE", "NEXTBARE", "STOP", "END", "SET", "IFLS", "IFSL", "ELIFSL", "IFEND", "FORVAR", "IFNUM", "IFNUMELSE", "ELIFNUM", "ELIFNUML", "FOR3LISTBARE", "FOR4LISTBARE", "FOR3LIST3", "FOR3BARELIST", "FORSYMBARE", "FORSYMDOWN", "FORSYMSTEP", "FORSYM2", "FORSYMIF", "FORSYMGOTO", "IFIFOR2L", "IFIFAND", "IFIFELSE", "ONGOTOTAIL2", "ONGOSUBTAIL", "IFONGOTOELSE", "GOSUBTAIL", "GOTOTAIL", "ELIFSLLL", "IFTHENGOTO", "IFTHENGOSUB2")]
+        core = [n for n in names if n not in VARIANTS and n not in ("ELIFNOELSE", "FOR2MIX", "PP", "IFELSE2", "ELIF2", "FORDOWN", "FORSTEP", "FORJ", "GOSUB2", "IFSS", "NEXTI", "FORIF", "FORLINE", "NEXTBARE", "STOP", "END", "SET", "IFLS", "IFSL", "ELIFSL", "IFEND", "FORVAR", "IFNUM", "IFNUMELSE", "ELIFNUM", "ELIFNUML", "FOR3LISTBARE", "FOR4LISTBARE", "FOR3LIST3", "FOR3BARELIST", "FORSYMBARE", "FORSYMDOWN", "FORSYMSTEP", "FORSYM2", "FORSYMIF", "FORSYMGOTO", "IFIFOR2L", "IFIFAND", "IFIFELSE", "ONGOTOTAIL2", "ONGOSUBTAIL", "IFONGOTOELSE", "GOSUBTAIL", "GOTOTAIL", "ELIFSLLL", "IFTHENGOTO", "IFTHENGOSUB2")]
     else:
         core = ["P", "IFL", "IFSG", "IFELSE", "IFLL", "ELIF", "GOSUB", "ONGOTO", "FORBARE", "FOR2BARE", "FOR", "IFSTOP", "GOTO"]
     for s in itertools.product(core, repeat=3):
